@@ -1,8 +1,10 @@
 ----------------------------- MODULE TV_Routing -----------------------------
 (* Trace validation of the daemon engine against Routing.tla (C17). *)
 EXTENDS Routing, TVCommon
-VARIABLES masks, nq, sizeOf, l, viol, judged, cur, dead
-tvars == <<masks, nq, sizeOf, l, viol, judged, cur, dead>>
+VARIABLES masks, nq, sizeOf, l, viol, judged, cur, dead, lst
+tvars == <<masks, nq, sizeOf, l, viol, judged, cur, dead, lst>>
+\* lst: the custom listeners this case has registered so far, in order: [thread, idl, alive] -- alive = registered with the worker
+\* and not unregistered since (several listeners may share an id; each of them is delivered under it for as long as it is alive)
 
 MaskSet(m) == {b \in 0..15 : (m \div (2 ^ b)) % 2 = 1}
 MS == [t \in 1..Len(masks) |-> MaskSet(masks[t])]
@@ -26,31 +28,51 @@ ListenerViol(e) ==
         accept == IF Small(idl) THEN idl[1] > nq ELSE e.status = "ok"   \* an id the u16 event cannot carry may be refused
         cls == IF Small(idl) THEN "id<=65535" ELSE "id>65535" IN
     IF (e.status = "ok") # accept THEN {"C17/listener-registration/" \o cls \o "/accepted=" \o Str(e.status = "ok")}
-    ELSE IF ~accept THEN {}
+    ELSE IF ~accept \/ ("fire" \in DOMAIN e.letter /\ ~e.letter.fire) THEN {}
     ELSE IF ~e.workers_ok THEN {"C17/worker-thread-terminated/by-listener-event/" \o cls}
     ELSE IF e.ndispatch # 1 THEN {"C17/listener-dispatches=" \o (IF e.ndispatch > 2 THEN "many" ELSE Str(e.ndispatch)) \o "/" \o cls}
     ELSE LET d == e.dispatches[1] IN
          (IF d.thread # e.letter.thread THEN {"C17/listener-on-wrong-thread"} ELSE {})
          \cup (IF ~Small(idl) \/ d.event # idl[1] THEN {"C17/listener-delivered-with-different-id/" \o cls} ELSE {})
 
-TVInit == masks = <<>> /\ nq = 0 /\ sizeOf = <<>> /\ l = 1 /\ viol = {} /\ judged = 0 /\ cur = -1 /\ dead = FALSE
+\* an event raised on the idx-th listener of the case: delivered exactly once, to its thread, under its id, iff it is alive
+FireViol(e) ==
+    LET i == e.letter.idx + 1 IN
+    IF i > Len(lst) THEN {}
+    ELSE LET x == lst[i]  shared == \E j \in 1..Len(lst) : j # i /\ lst[j].thread = x.thread /\ lst[j].idl = x.idl
+             tag == IF shared THEN "/id-shared-with-another-listener" ELSE "" IN
+         IF ~e.workers_ok THEN {"C17/worker-thread-terminated/by-listener-event" \o tag}
+         ELSE IF ~x.alive THEN (IF e.ndispatch # 0 THEN {"C17/event-of-an-unregistered-listener-delivered" \o tag} ELSE {})
+         ELSE IF e.ndispatch # 1 THEN {"C17/listener-dispatches=" \o (IF e.ndispatch > 2 THEN "many" ELSE Str(e.ndispatch)) \o tag}
+         ELSE LET d == e.dispatches[1] IN
+              (IF d.thread # x.thread THEN {"C17/listener-on-wrong-thread" \o tag} ELSE {})
+              \cup (IF d.event # x.idl[1] THEN {"C17/listener-delivered-with-different-id" \o tag} ELSE {})
+UnlistenViol(e) ==
+    LET i == e.letter.idx + 1 IN
+    IF i <= Len(lst) /\ lst[i].alive /\ e.status # "ok" THEN {"C17/unregistering-a-registered-listener-fails"} ELSE {}
+
+TVInit == masks = <<>> /\ nq = 0 /\ sizeOf = <<>> /\ l = 1 /\ viol = {} /\ judged = 0 /\ cur = -1 /\ dead = FALSE /\ lst = <<>>
 TVReset == /\ l <= Len(Rec) /\ Rec[l].ev = "reset"
-           /\ masks' = Rec[l].masks /\ nq' = Rec[l].nq /\ sizeOf' = [q \in 0..(Rec[l].nq - 1) |-> Rec[l].maxq] /\ dead' = FALSE
+           /\ masks' = Rec[l].masks /\ nq' = Rec[l].nq /\ sizeOf' = [q \in 0..(Rec[l].nq - 1) |-> Rec[l].maxq] /\ dead' = FALSE /\ lst' = <<>>
            /\ cur' = Rec[l].id /\ l' = l + 1 /\ UNCHANGED <<viol, judged>>
 TVStep == /\ l <= Len(Rec) /\ Rec[l].ev = "step"
           /\ LET e == Rec[l] IN
              /\ viol' = IF dead THEN viol
                         ELSE AddViol(viol, CASE e.op = "kick" -> KickViol(e) [] e.op = "listener" -> ListenerViol(e)
+                                             [] e.op = "fire" -> FireViol(e) [] e.op = "unlisten" -> UnlistenViol(e)
                                              [] OTHER -> IF e.workers_ok THEN {} ELSE {"C17/worker-thread-terminated/after-" \o e.op}, cur)
              /\ sizeOf' = IF e.op = "set_vring_num" /\ e.status = "ok" THEN [sizeOf EXCEPT ![e.q] = e.letter.n[1]] ELSE sizeOf
              /\ dead' = (dead \/ ~e.workers_ok \/ e.status \notin {"ok", "none", "err"})
+             /\ lst' = IF e.op = "listener" THEN Append(lst, [thread |-> e.letter.thread, idl |-> e.letter.idl, alive |-> e.status = "ok"])
+                       ELSE IF e.op = "unlisten" /\ e.letter.idx + 1 <= Len(lst) /\ e.status = "ok"
+                            THEN [lst EXCEPT ![e.letter.idx + 1].alive = FALSE] ELSE lst
           /\ judged' = judged + 1 /\ l' = l + 1 /\ UNCHANGED <<masks, nq, cur>>
-TVOther == /\ l <= Len(Rec) /\ Rec[l].ev \in {"end", "threads"} /\ l' = l + 1 /\ UNCHANGED <<masks, nq, sizeOf, viol, judged, cur, dead>>
+TVOther == /\ l <= Len(Rec) /\ Rec[l].ev \in {"end", "threads"} /\ l' = l + 1 /\ UNCHANGED <<masks, nq, sizeOf, viol, judged, cur, dead, lst>>
 \* the process under test was killed by a signal while this case ran (recorded by the driver; `begin` marks the letter that
 \* was in progress): judged like any other observation -- whatever the property, an input that kills the process breaks it
 TVCrashAny == /\ l <= Len(Rec) /\ Rec[l].ev \in {"crash", "begin"}
               /\ viol' = IF Rec[l].ev = "crash" THEN AddViol(viol, {"ANY/process-killed-by-signal-" \o Str(Rec[l].signal)}, Rec[l].id) ELSE viol
-              /\ l' = l + 1 /\ UNCHANGED <<masks, nq, sizeOf, judged, cur, dead>>
+              /\ l' = l + 1 /\ UNCHANGED <<masks, nq, sizeOf, judged, cur, dead, lst>>
 TVNext == TVReset \/ TVStep \/ TVOther \/ TVCrashAny
 TVSpec == TVInit /\ [][TVNext]_tvars
 Post == PostOK
